@@ -242,6 +242,45 @@ func (x *Exec) merge(states []*State) *State {
 		if same {
 			return vals[0]
 		}
+		if strings.HasPrefix(sortName, "(Slc ") {
+			// merge slices componentwise so that accessors stay syntactic
+			allCtor := true
+			for _, v := range vals {
+				if !strings.HasPrefix(v, "(mk-slc ") || len(sexprArgs(v)) != 3 {
+					allCtor = false
+				}
+			}
+			if allCtor {
+				es := sortName[5 : len(sortName)-1]
+				comp := func(k int, cs string) string {
+					parts := make([]string, len(vals))
+					for i, v := range vals {
+						parts[i] = sexprArgs(v)[k]
+					}
+					allSame := true
+					for _, p := range parts[1:] {
+						if p != parts[0] {
+							allSame = false
+						}
+					}
+					if allSame {
+						return parts[0]
+					}
+					t := parts[len(parts)-1]
+					for i := len(parts) - 2; i >= 0; i-- {
+						t = ite(conds[i], parts[i], t)
+					}
+					if len(t) > 120 {
+						n := x.d.freshName("m_" + hint)
+						x.d.declareConst(n, cs)
+						res.pc = append(res.pc, eq(n, t))
+						return n
+					}
+					return t
+				}
+				return "(mk-slc " + comp(0, "(Array Int "+es+")") + " " + comp(1, "Int") + " " + comp(2, "Int") + ")"
+			}
+		}
 		t := vals[len(vals)-1]
 		for i := len(vals) - 2; i >= 0; i-- {
 			t = ite(conds[i], vals[i], t)
